@@ -14,7 +14,7 @@ use crate::proto::{Ctx, attrs};
 pub fn meta() -> Meta {
     Meta {
         level: "model_checking",
-        rule: "the recorder program is built in 4 (quick: both backends, each once with cache+multi-threading on and once with both off) / all 8 (thorough) feature configurations {manager-index, manager-pointer} x {apply-cache-direct-mapped on, off} x {multi-threading on, off} and run with 1 and 2 (thorough: 1, 2, 8) worker threads (split depth 2 when > 1). Workload per run: for bdd, bcdd, zbdd and each of the 6 orders: all 64x64 operand pairs of a closed 64-function subset for the 8 binary connectives, 22^3 ite triples, not/eval/gc/audit, the rest of the API surface (quantifiers and apply-quantify for all 8 variable subsets, substitute, restrict for all 27 cubes, pick_cube*, sat_count, cofactors, ZBDD subset0/subset1/change/union/intsec/diff/singleton); every history of depth 4 (quick with more than one worker: 3) over 12 actions (5 operations, clone, 2 drops, gc, add_vars, reverse/rotate reordering) on a fresh manager with tables, node counts, variable order, gc return values, sat_count of every live register through ONE SatCountCache per history (it has to notice every collection and reordering by itself) and the full structural + reference-count audit recorded after every step; TDD: all 27^2 pairs for 8 connectives and all 27^3 ite triples on one variable. Oracle: every observation equals the truth-table model (checked inside the recorder) and all transcripts are identical. states = distinct transcript lines, transitions = history steps + operations executed per run, executions = recorder runs.",
+        rule: "the recorder program is built in 4 (quick: both backends, each once with cache+multi-threading on and once with both off) / all 8 (thorough) feature configurations {manager-index, manager-pointer} x {apply-cache-direct-mapped on, off} x {multi-threading on, off} and run with 1 and 2 (thorough: 1, 2, 8) worker threads (split depth 2 when > 1). Workload per run: for bdd, bcdd, zbdd and each of the 6 orders: all 64x64 operand pairs of a closed 64-function subset for the 8 binary connectives, 22^3 ite triples, not/eval/gc/audit, one 30-variable diagram with 65536 nodes (bdd, bcdd; built bottom-up, node_count / sat_count / evaluations recorded), the rest of the API surface (quantifiers and apply-quantify for all 8 variable subsets, substitute, restrict of all 256 functions by all 27 cubes in ascending and descending cube order, pick_cube*, sat_count, cofactors, ZBDD subset0/subset1/change/union/intsec/diff/singleton); every history of depth 4 (quick with more than one worker: 3) over 12 actions (5 operations, clone, 2 drops, gc, add_vars, reverse/rotate reordering) on a fresh manager with tables, node counts, variable order, gc return values, sat_count of every live register through ONE SatCountCache per history (it has to notice every collection and reordering by itself) and the full structural + reference-count audit recorded after every step; TDD: all 27^2 pairs for 8 connectives and all 27^3 ite triples on one variable. Oracle: every observation equals the truth-table model (checked inside the recorder) and all transcripts are identical. states = distinct transcript lines, transitions = history steps + operations executed per run, executions = recorder runs.",
         assumptions: vec![
             "MTBDD exists for the index backend only (the library offers no pointer-based MTBDD) and is therefore not part of the cross-configuration comparison".into(),
             "the configurations are separate builds of the same recorder source; cargo feature unification is avoided by building each with its own target directory".into(),
